@@ -198,7 +198,12 @@ func runC14(r *vfw.Run) {
 			r.Note("own block rejected: %v", err)
 			break
 		}
-		r.Logf("engine: list=%d block h=%d txs=%d", len(list), p.Block.Height(), len(p.Block.Body.Transactions))
+		var order []string
+		for _, tx := range p.Block.Body.Transactions {
+			snd, _ := types.Sender(tx)
+			order = append(order, fmt.Sprintf("%x/%d", snd[:2], tx.AccountNonce))
+		}
+		r.Logf("engine: list=%d block h=%d txs=%d %v", len(list), p.Block.Height(), len(p.Block.Body.Transactions), order)
 		if len(p.Block.Body.Transactions) > 0 {
 			blocksWithTxs++
 			if clientsDone < nclients {
